@@ -94,6 +94,8 @@ def units(tier):
             obs.append(Obligation(base + "/returns_normally", ctx, ob[0] == "ret", note=str(ob[1]) if ob[0] == "exc" else ""))
             obs.append(Obligation(base + "/exactly_one_device", ctx, len(calls) == 1))
             obs.append(Obligation(base + "/no_warning", ctx, len(ctx.ghost.warnings) == 0))
+            obs.append(Obligation(base + "/assigns_nothing", ctx, not ctx.ghost.heap_writes and not ctx.ghost.module_writes,
+                                  note=str(ctx.ghost.module_writes[:2])))
             if len(calls) == 1:
                 dev = calls[0]
                 obs.append(Obligation(base + "/class", ctx, getattr(getattr(dev, "cls", None), "name", None) == CLASS_OF[cat]))
@@ -171,4 +173,6 @@ def search_cases(o, seed):
 
 def native_cases(tier, seed):
     return [{"prop": PROP, "kind": "sweep", "inputs": {"seed": seed, "n": 3000 if tier == "quick" else 100000}},
+            {"prop": PROP, "kind": "sweep", "inputs": {"seed": seed + 1, "n": 600 if tier == "quick" else 20000, "debug_logging": True}},
+            {"prop": PROP, "kind": "renames", "inputs": {"seed": seed, "n": 200 if tier == "quick" else 5000}},
             {"prop": PROP, "kind": "shipped", "inputs": {}}]
